@@ -73,6 +73,22 @@ def G(X, Y):
 _ZERO = [0] * 128
 
 
+def ref_index(m, p, r, s, idx, same_lane, J1):
+    """RFC 9106 section 3.4.2: index (within its lane) of the reference block for the block at (pass r, slice s, index idx)"""
+    mp = 4 * p * (m // (4 * p))
+    q = mp // p
+    SL = q // 4
+    if r == 0:
+        W = (s * SL + idx - 1) if same_lane else (s * SL - (1 if idx == 0 else 0))
+        startpos = 0
+    else:
+        W = (q - SL + idx - 1) if same_lane else (q - SL - (1 if idx == 0 else 0))
+        startpos = ((s + 1) * SL) % q
+    x = (J1 * J1) >> 32
+    yy = (W * x) >> 32
+    return (startpos + W - 1 - yy) % q, W
+
+
 def argon2(ytype, version, t, p, m, password, salt, key, aad, taglen):
     y = TYPES[ytype]
     h0 = hashlib.blake2b(_le32(p) + _le32(taglen) + _le32(m) + _le32(t) + _le32(version) + _le32(y)
